@@ -44,6 +44,8 @@ StrText(nm) ==
     [] nm = "s_brack"  -> <<"x]y[z">>
     [] nm = "s_paren"  -> <<"p)(q">>
     [] nm = "s_brace"  -> <<"{b}:c">>
+    [] nm = "s_open"   -> <<"smile :( [">>
+    [] nm = "s_close"  -> <<"c]) }">>
     [] nm = "s_eq"     -> <<"k=v">>
     [] nm = "s_sq"     -> <<"it", "<sq>", "s">>
     [] nm = "s_dq"     -> <<"say ", "<dq>", "hi", "<dq>">>
@@ -64,8 +66,8 @@ StrText(nm) ==
     [] nm = "regex"    -> <<"regex">>
     [] nm = "qname"    -> <<"qname">>
     [] OTHER           -> <<nm>>
-PoolNames == {"s_abc", "s_empty", "s_comma", "s_brack", "s_paren", "s_brace", "s_eq", "s_sq", "s_dq", "s_space", "b1", "b2", "bkt",
-              "nobucket", "host2", "app", "title", "url", "x", "re1", "c1", "c2", "tagA", "regex", "qname"}
+PoolNames == {"s_abc", "s_empty", "s_comma", "s_brack", "s_paren", "s_brace", "s_open", "s_close", "s_eq", "s_sq", "s_dq", "s_space", "b1", "b2", "bkt",
+              "nobucket", "host2", "app", "title", "url", "x", "re1", "c1", "c2", "tagA", "regex", "qname", "select_keys"}
 
 RECURSIVE Flatten(_)
 Flatten(ss) == IF ss = <<>> THEN <<>> ELSE Head(ss) \o Flatten(Tail(ss))
@@ -160,5 +162,8 @@ ExecClause(p, rec) ==
   ELSE IF \E i \in 1..Len(want.log) : Len(rec.log[i].a) # Len(want.log[i].a) THEN "argument-dropped-or-added"
   ELSE IF \E i \in 1..Len(want.log) : \E j \in 1..Len(want.log[i].a) : ~Match(want.log[i].a[j], rec.log[i].a[j], rets) THEN "argument-value-differs"
   ELSE IF ~Match(want.result, rec.result, rets) THEN "result-differs-from-denoted-value"
+  \* categorize / tag: what the registered built-in returned equals the transform of that name applied to the arguments as
+  \* written (rule dictionaries turned into rules one by one) - compared by the harness on copies taken before the call
+  ELSE IF rec.wrapdiff # <<>> THEN "built-in-did-not-apply-the-transform-to-the-written-arguments"
   ELSE "none"
 =============================================================================
